@@ -63,6 +63,11 @@ def run(ctx):
         fa = [fr(x) for x in a]
         fdt = fr(dt)
         out = {}
+        # documented alias: calc_cumulative_abs_displacement IS calc_integral_of_abs_velocity
+        r_al, r_mn = call_impl(im.calc_cumulative_abs_displacement, asig), call_impl(im.calc_integral_of_abs_velocity, asig)
+        ctx.oracle('C09 alias calc_cumulative_abs_displacement == calc_integral_of_abs_velocity (==)',
+                   r_al[0] == r_mn[0] and (r_al[0] != 'ok' or np.array_equal(r_al[1], r_mn[1])), {'a': a, 'dt': dt},
+                   detail=None if r_al[0] != 'ok' or r_mn[0] != 'ok' else {'alias_last': float(np.asarray(r_al[1])[-1]), 'main_last': float(np.asarray(r_mn[1])[-1])})
         for fname, h in SERIES:
             res = call_impl(getattr(im, fname), asig)
             out[fname] = res
